@@ -40,6 +40,14 @@ def run(ck):
     ck.clause("C08.6", "joined row = conflict resolution of the two parts' facing segments, earlier part left; nothing out of order")
     ck.clause("C08.7", "resolve receives exactly the reported first-pass ++ second-pass records")
     ck.clause("C08.8", "saveAdditionalOutput writes exactly the rows it is given (no per-query filter)")
+    ctx = ck.ctx
+    p = ctx.p
+    ck.clause("C08.11", "what a mode writes does not hinge on a whole-run condition (is any second-pass row there at all?): the files "
+                        "of the modes agree on every input (as C10.10)")
+    from ..report import RuleView
+    from . import c10
+    c10.run_global_conditions(RuleView(ck, {"C10.10": "C08.11"}))
+
     modes, default, mnode = declared_modes(ck)
     execute = multipass_execute(ck)
     ck.floor("C08.1 declared modes", len(modes), 4)
@@ -142,6 +150,23 @@ def run(ck):
 
     # ------------------------------------------------------------------ C08.8
     _save_writes_its_argument(ck)
+    # ------------------------------------------------------------------ C08.11 / C08.12
+    ck.clause("C08.12", "the row lists written as _1 / _2 are the lists that were filtered for them: no list is extended or re-ordered "
+                        "in place under another name before it is written")
+    from ..rules.alias import findings as alias_findings
+    coord_fns = [f for f in p.nontest_functions() if f.module.name in ("src.multi_pass_workflow_coordinator", "src.workflow_coordinator")
+                 and not f.is_lambda]
+    n_al = 0
+    for f in coord_fns:
+        for node, text in alias_findings(ctx, f):
+            n_al += 1
+            ck.violation("C08.12", short(f) + ":aliased-list", where(f, node), text + ": the list written under the first name is no "
+                         "longer the list that was filtered for that file", found=ast.unparse(node)[:100],
+                         required="a new list (a + b), or a copy before changing it")
+    ck.floor("C08.12 coordinator functions scanned for in-place changes of aliased lists", len(coord_fns), 10)
+    if not n_al:
+        ck.ok("C08.12", "coordinators", "src/multi_pass_workflow_coordinator.py", f"{len(coord_fns)} functions: no list is changed in "
+              "place under a second name and read again under the first")
     # argument roles in the multi-pass coordinator (reference / query lists are both List[OpticalMap]: an exchange runs)
     ck.clause("C08.9", "argument roles in the multi-pass coordinator: reference and query arguments are not exchanged")
     from ..rules import role as R
